@@ -19,6 +19,9 @@ LEAVES = [
     # async_wait_for_start raises NotRunningException at once when done
     ("Shutdown", "wait_for_start_raises", "_core.py", "Zeroconf.async_wait_for_start", ("if", "self.done", 0),
      [P("self.done", "done", "bool")], "bool", {}),
+    # ... and again after the wait: the event was cleared (another close shut the engine down) or the instance is done
+    ("Shutdown", "wait_for_start_raises_after", "_core.py", "Zeroconf.async_wait_for_start", ("if", "running_event.is_set()", 0),
+     [P("self.engine.running_event.is_set()", "is_set", "bool"), P("self.done", "done", "bool")], "bool", {}),
     ("Shutdown", "started", "_core.py", "Zeroconf.started", ("ret",),
      [P("self.done", "done", "bool"), P("self.engine.running_event", "has_event", "bool"),
       P("self.engine.running_event.is_set()", "is_set", "bool")], "bool", {}),
